@@ -2,21 +2,168 @@ package main
 
 // Enumerations for the score properties (C03, C04, C05, C10, C11, C12).
 
+// all assignments of the given metrics (by index into v.metrics) on top of object b
+func (v *version) enumerate(b []byte, idx []int, f func([]byte)) {
+	if len(idx) == 0 {
+		f(b)
+		return
+	}
+	mt := v.metrics[idx[0]]
+	for _, val := range mt.values {
+		nb, err := v.set(b, mt.abv, val)
+		if err != nil {
+			continue
+		}
+		v.enumerate(nb, idx[1:], f)
+	}
+}
+
+func (v *version) mandIdx() []int {
+	var r []int
+	for i, mt := range v.metrics {
+		if mt.mand {
+			r = append(r, i)
+		}
+	}
+	return r
+}
+
 func streamScore(thorough bool, args []string) {
-	n := 3000
+	nRand, nMono, nEff := 4000, 1500, 1500
 	if thorough {
-		n = 200000
+		nRand, nMono, nEff = 400000, 60000, 60000
 	}
 	for _, v := range versions {
-		v.opScore(make([]byte, v.n))
-		for i := 0; i < n; i++ {
+		zero := make([]byte, v.n)
+		v.opScore(zero)
+		mand := v.mandIdx()
+		// (a) every base class (all optional metrics not defined) — exhaustive for v2 (729) and v3 (2,592);
+		//     v4 has 104,976 base classes: exhaustive in thorough, a stride sample in quick
+		cnt := 0
+		v.enumerate(zero, mand, func(b []byte) {
+			cnt++
+			if v.name == "40" && !thorough && cnt%23 != 0 {
+				return
+			}
+			v.opScore(b)
+		})
+		// (b) on a few base objects: every optional metric alone with every value, and every pair of optional
+		//     metrics of the same group (temporal × temporal, …) in thorough
+		bases := [][]byte{zero}
+		for i := 0; i < 6; i++ {
+			b := zero
+			for _, k := range mand {
+				mt := v.metrics[k]
+				nb, _ := v.set(b, mt.abv, mt.values[(i*7+k*3)%len(mt.values)])
+				b = nb
+			}
+			bases = append(bases, b)
+		}
+		for _, b := range bases {
+			for k, mt := range v.metrics {
+				if mt.mand {
+					continue
+				}
+				v.enumerate(b, []int{k}, v.opScore)
+				if thorough {
+					for k2 := k + 1; k2 < len(v.metrics); k2++ {
+						if !v.metrics[k2].mand {
+							v.enumerate(b, []int{k, k2}, v.opScore)
+						}
+					}
+				}
+			}
+		}
+		// (c) random well-formed objects, and raw bytes (correspondence of the panic behaviour)
+		for i := 0; i < nRand; i++ {
 			v.opScore(v.randomWF())
 		}
-		// raw bytes too (correspondence of the panic behaviour)
-		for i := 0; i < n/20; i++ {
+		for i := 0; i < nRand/20; i++ {
 			b := make([]byte, v.n)
 			rng.Read(b)
 			v.opScore(b)
 		}
+		// (d) C12: one metric, every ordered pair of its values, on random objects
+		for i := 0; i < nMono; i++ {
+			b := v.randomWF()
+			mt := pick(v.metrics)
+			for _, v1 := range mt.values {
+				for _, v2 := range mt.values {
+					if v1 != v2 {
+						v.opMono(b, mt.abv, v1, v2)
+					}
+				}
+			}
+		}
+		// (e) C10: pairs of objects that differ only in ways the effective values hide
+		if v.name != "20" {
+			for i := 0; i < nEff; i++ {
+				b := v.randomWF()
+				v.opEff(b, v.effTwin(b))
+			}
+		}
 	}
+}
+
+// a different object with (as far as this generator knows) the same effective values
+func (v *version) effTwin(b []byte) []byte {
+	get := func(a string) string { s, _ := v.get(b, a); return s }
+	set := func(x []byte, a, val string) []byte {
+		nb, err := v.set(x, a, val)
+		if err != nil {
+			return x
+		}
+		return nb
+	}
+	nb := b
+	isMod := func(a string) (string, bool) {
+		if len(a) > 1 && a[0] == 'M' {
+			for _, mt := range v.metrics {
+				if mt.mand && mt.abv == a[1:] {
+					return a[1:], true
+				}
+			}
+		}
+		return "", false
+	}
+	for _, mt := range v.metrics {
+		if base, ok := isMod(mt.abv); ok {
+			switch {
+			case get(mt.abv) == "X" && rng.Intn(2) == 0:
+				// replace X by an explicit copy of the base value
+				nb = set(nb, mt.abv, get(base))
+			case get(mt.abv) != "X" && rng.Intn(2) == 0:
+				// change the overridden base metric
+				for _, bm := range v.metrics {
+					if bm.abv == base {
+						nb = set(nb, base, pick(bm.values))
+					}
+				}
+			}
+		}
+	}
+	// defaults of undefined metrics
+	dflt := map[string]string{"E": "H", "RL": "U", "RC": "C", "CR": "M", "IR": "M", "AR": "M"}
+	if v.name == "40" {
+		dflt = map[string]string{"E": "A", "CR": "H", "IR": "H", "AR": "H"}
+	}
+	for a, d := range dflt {
+		if rng.Intn(2) == 0 {
+			if get(a) == "X" {
+				nb = set(nb, a, d)
+			} else if get(a) == d {
+				nb = set(nb, a, "X")
+			}
+		}
+	}
+	// supplemental metrics never matter (v4); environmental metrics never matter for base/temporal (v3: judged per key)
+	for _, mt := range v.metrics {
+		if mt.group == 3 && rng.Intn(2) == 0 {
+			nb = set(nb, mt.abv, pick(mt.values))
+		}
+		if v.name != "40" && mt.group == 2 && rng.Intn(4) == 0 {
+			nb = set(nb, mt.abv, pick(mt.values))
+		}
+	}
+	return nb
 }
